@@ -144,7 +144,8 @@ class C06(common.Prop):
                 r = rng.random()
                 if nres == 0 or r < 0.45:
                     f = rng.choice(self.names)
-                    args = rng.choice([{}, {}, {"start_frame": 1}, {"end_frame": 2}, {"start_frame": 1, "end_frame": 3}])
+                    # (a start beyond the last frame raises: a read that FAILS is part of a history too)
+                    args = rng.choice([{}, {}, {"start_frame": 1}, {"end_frame": 2}, {"start_frame": 1, "end_frame": 3}, {"start_frame": 99}])
                     steps.append(["read", f, rng.choice(["bytes", "bytes", "stream"]), args])
                     nres += 1
                 elif r < 0.85:
@@ -166,7 +167,7 @@ class C06(common.Prop):
                 r = rng.random()
                 if nres == 0 or r < 0.4:
                     steps.append(["read", rng.choice(gnames), rng.choice(["bytes", "bytes", "stream"]),
-                                  rng.choice([{}, {}, {"start_frame": 1}, {"end_frame": 2}, {"start_frame": 1, "end_frame": 3}])])
+                                  rng.choice([{}, {}, {"start_frame": 1}, {"end_frame": 2}, {"start_frame": 1, "end_frame": 3}, {"start_frame": 99}])])
                     nres += 1
                 elif r < 0.8:
                     steps.append(["mutate", rng.randrange(nres), rng.choice(gmut)])
